@@ -225,3 +225,29 @@ Definition count_pres (g : mgraph) (pres : list Z) (n : N) : Z :=
   Z.of_nat (length (filter (fun h => mem n (nbrs g h)) (preserved g pres))).
 Definition is_H (a : gnode) : bool := N.eqb (g_el a) EL_H.
 Definition watom_of (a : gnode) : watom := WA (g_el a) (g_ch a) (g_amap a) (g_hc a).
+
+(** the graph MolToGraph.transform(drop_non_aam=True, use_index_as_atom_map=True) returns on a molecule whose mapped
+    atoms carry distinct maps and whose bonds join distinct atom pairs ([rmol_ok]; theorem C01_mol_to_graph) *)
+Definition graph_of (m : rmol) : mgraph := LG (mapped_nodes m) (mapped_bonds m).
+
+(** ** the two string functions, relative to RDKit: [rd_read] = MolFromSmiles(sanitize=False) + SanitizeMol + the
+    getters MolToGraph uses; [rd_write] = RWMol construction + SanitizeMol + MolToSmiles.  NOT modelled: parameters. *)
+Section RDKit.
+  Variable str : Type.
+  Variable rd_read : str -> option rmol.
+  Variable rd_write : wmol -> option str.
+  (** rsmi_to_its(r >> p) *)
+  Definition rsmi_to_its_s (r p : str) : option its :=
+    match rd_read r, rd_read p with
+    | Some mr, Some mp => rsmi_to_its_m mr mp
+    | _, _ => None
+    end.
+  (** its_to_rsmi(its) = r' >> p' *)
+  Definition its_to_rsmi_s (I : its) : option (str * str) :=
+    match its_to_wmols I with
+    | Some (wr, wp) => match rd_write wr, rd_write wp with Some a, Some b => Some (a, b) | _, _ => None end
+    | None => None
+    end.
+End RDKit.
+Arguments rsmi_to_its_s [str] rd_read r p.
+Arguments its_to_rsmi_s [str] rd_write I.
